@@ -54,6 +54,7 @@ type c03Env struct {
 	transfer uint64 // id of a pending (unbatched) transfer of ub
 	contract uint64 // id of ub's uploaded user contract
 	licensee chain.Actor
+	client   chain.Actor // a registered (activated) light-node client holding a fee grant from the configured fee granter
 }
 
 // who the victim of a template is
@@ -62,6 +63,7 @@ const (
 	vicUser      = "user"
 	vicGov       = "gov"
 	vicLicensee  = "licensee"
+	vicClient    = "client"
 )
 
 type c03Template struct {
@@ -227,6 +229,12 @@ func c03Templates() []c03Template {
 		{name: "paloma.MsgSetLegacyLightNodeClients", group: "paloma", victim: vicGov, build: func(e *c03Env, id map[string]sdk.AccAddress, md vtypes.MsgMetadata) sdk.Msg {
 			return &palomatypes.MsgSetLegacyLightNodeClients{Metadata: md}
 		}},
+		{name: "paloma.MsgSetLegacyLightNodeClients", group: "paloma", victim: vicClient, build: func(e *c03Env, id map[string]sdk.AccAddress, md vtypes.MsgMetadata) sdk.Msg {
+			return &palomatypes.MsgSetLegacyLightNodeClients{Metadata: md}
+		}},
+		{name: "paloma.MsgAuthLightNodeClient", group: "paloma", victim: vicClient, build: func(e *c03Env, id map[string]sdk.AccAddress, md vtypes.MsgMetadata) sdk.Msg {
+			return &palomatypes.MsgAuthLightNodeClient{Metadata: md}
+		}},
 		{name: "skyway.MsgSubmitBadSignatureEvidence", group: "skyway_claims", victim: vicValidator, principals: []string{"sender"}, build: func(e *c03Env, id map[string]sdk.AccAddress, md vtypes.MsgMetadata) sdk.Msg {
 			// evidence built by somebody who does not hold the victim's remote key: a never-issued batch signed by the attacker's key
 			fake := skywaytypes.OutgoingTxBatch{BatchNonce: 99, BatchTimeout: 1, TokenContract: c03ERC20, ChainReferenceId: c03Chain, Assignee: c03ValOper(e.vb.Addr), AssigneeRemoteAddress: chain.EthAddr(attackerEth).Bytes(),
@@ -303,11 +311,11 @@ func c03GovDigest(c *chain.Chain) string {
 // c03Setup builds a chain with populated victim state.
 func c03Setup(t *rapid.T, salt string) *c03Env {
 	c, err := chain.New(chain.Options{Salt: salt, Stakes: []int64{100_000_000, 100_000_000, 100_000_000, 100_000_000}, InitialHeight: 44,
-		Users: []string{"ub", "mallory", "gm", "pigeon", "funder"}, EvmChains: []chain.EvmChain{{RefID: c03Chain, ChainID: 1}}})
+		Users: []string{"ub", "mallory", "gm", "pigeon", "funder", "granter"}, EvmChains: []chain.EvmChain{{RefID: c03Chain, ChainID: 1}}})
 	if err != nil {
 		t.Fatalf("boot: %v", err)
 	}
-	e := &c03Env{c: c, attacker: c.Users["mallory"], grantee: c.Users["gm"], pigeon: c.Users["pigeon"], vb: c.Vals[1], ub: c.Users["ub"], licensee: chain.MkActor(salt + "/licensee")}
+	e := &c03Env{c: c, attacker: c.Users["mallory"], grantee: c.Users["gm"], pigeon: c.Users["pigeon"], vb: c.Vals[1], ub: c.Users["ub"], licensee: chain.MkActor(salt + "/licensee"), client: chain.MkActor(salt + "/client")}
 	must := func(err error, what string) {
 		if err != nil {
 			c.Close()
@@ -348,13 +356,22 @@ func c03Setup(t *rapid.T, salt string) *c03Env {
 		),
 		c.MustSign(e.vb.Actor, grantV),
 		c.MustSign(e.attacker, grantA),
-		c.MustSign(c.Users["funder"], &palomatypes.MsgAddLightNodeClientLicense{Metadata: chain.MD(c.Users["funder"]), ClientAddress: e.licensee.Addr.String(), Amount: sdk.NewCoin(chain.BondDenom, sdkmath.NewInt(9_000_000)), VestingMonths: 6}),
+		c.MustSign(c.Users["funder"], &palomatypes.MsgAddLightNodeClientLicense{Metadata: chain.MD(c.Users["funder"]), ClientAddress: e.licensee.Addr.String(), Amount: sdk.NewCoin(chain.BondDenom, sdkmath.NewInt(9_000_000)), VestingMonths: 6},
+			&palomatypes.MsgAddLightNodeClientLicense{Metadata: chain.MD(c.Users["funder"]), ClientAddress: e.client.Addr.String(), Amount: sdk.NewCoin(chain.BondDenom, sdkmath.NewInt(7_000_000)), VestingMonths: 6}),
 	), "victim state 1")
+	// governance-configured fee granter (fixture); it grants the client an allowance, the client redeems its licence
+	must(c.App.PalomaKeeper.SetLightNodeClientFeegranter(c.Ctx(), c.Users["granter"].Addr), "fee granter")
+	grantC, _ := feegrant.NewMsgGrantAllowance(&feegrant.BasicAllowance{}, c.Users["granter"].Addr, e.client.Addr)
 	mustOK(blk( // 49
 		c.MustSign(e.ub, &schedtypes.MsgExecuteJob{Metadata: chain.MD(e.ub), JobID: e.jobID}),
 		c.MustSign(e.vb.Actor, &skywaytypes.MsgSendToPalomaClaim{Metadata: chain.MD(e.vb.Actor), EventNonce: 1, SkywayNonce: 1, EthBlockHeight: 4000, TokenContract: c03ERC20, Amount: sdkmath.NewInt(5),
 			EthereumSender: "0x00000000000000000000000000000000000000b1", PalomaReceiver: e.ub.Addr.String(), Orchestrator: e.vb.Addr.String(), ChainReferenceId: c03Chain, CompassId: "compass-1"}),
+		c.MustSign(c.Users["granter"], grantC),
+		c.MustSign(e.client, &palomatypes.MsgRegisterLightNodeClient{Metadata: chain.MD(e.client)}),
 	), "victim state 2")
+	if cl, err := c.App.PalomaKeeper.GetLightNodeClient(c.ReadCtx(), e.client.Addr.String()); err != nil || cl == nil {
+		t.Fatalf("setup: light-node client not registered: %v", err)
+	}
 	blk() // 50: batch is built from the first transfer
 	if b := e.openBatch(); b != nil {
 		e.batch = b.BatchNonce
@@ -446,6 +463,8 @@ func c03Case(t *rapid.T, tpls []c03Template) {
 			return e.ub.Addr
 		case vicLicensee:
 			return e.licensee.Addr
+		case vicClient:
+			return e.client.Addr
 		default:
 			return chain.GovAddr()
 		}
@@ -487,7 +506,11 @@ func c03Case(t *rapid.T, tpls []c03Template) {
 				asg = append(asg, f+"=A")
 			}
 		}
-		if !anyB {
+		// Usually at least one field names the victim; in some attempts none does: the message is entirely the
+		// attacker's own and refers to the victim's things, if at all, only through ids (job, transfer, contract, denom,
+		// batch) or not at all (messages with a global effect) - the victim's state must not change either.
+		ownMessage := !anyB && rapid.Bool().Draw(t, "ownMessage")
+		if !anyB && !ownMessage {
 			f := rapid.SampledFrom(fields).Draw(t, "forcedField")
 			id[f] = B
 			for j := range asg {
